@@ -429,3 +429,28 @@ loop('GroupInput.notify_upstream_of_available_space', 1, 'for gp in self._group.
      modifies=['$trace'], index='k')
 contract('GroupInput.space_available_downstream', props=['C03', 'C08'], args={},
          ensures={'every_path_of_the_group_is_asked_once_in_order': GI_ALL}, modifies=['$trace'])
+
+# --------------------------------------------------------------------------- construction of group paths (C08: wiring)
+# A GroupPath registers itself with its group, at the back of the group's path list (the order GroupInput / GroupOutput
+# iterate when they forward space notifications); Group.get_new_group_path returns exactly that new path.
+_SYS = ('System._instance is not None and alive(System._instance) and System._instance._assets is not None and '
+        'alive(System._instance._assets) and System._instance._env is not None and alive(System._instance._env) and '
+        'System._instance._env._now >= 0 and all(a is not None and alive(a) and a is not self for a in System._instance._assets) '
+        'and typed(System._instance._env, "Environment") and typed(System._instance, "System")')
+_GRP = ('{g} is not None and alive({g}) and {g}._group_paths is not None and alive({g}._group_paths) and '
+        '{g}._group_paths is not System._instance._assets and all(p is not None and alive(p) for p in {g}._group_paths)')
+_APPENDED = ('len({g}._group_paths) == old(len({g}._group_paths)) + 1 and {g}._group_paths[-1] is {p} and '
+             'all({g}._group_paths[i] is old({g}._group_paths[i]) for i in range(old(len({g}._group_paths))))')
+contract('GroupPath.__init__', props=['C08'], for_cls=['GroupPath'], invariants=False, fresh_self=True,
+         args={'group': 'ref:Group', 'name': 'str', 'upstream': 'list[ref:PartFlowController]?'},
+         requires={'a_system_exists': _SYS, 'the_group_exists': _GRP.format(g='group'), 'parameters': 'upstream is None'},
+         ensures={'belongs_to_the_group': 'self._group is group',
+                  'registered_last_in_the_groups_path_list': _APPENDED.format(g='group', p='self'),
+                  'starts_unwired_and_open': 'len(self._upstream) == 0 and len(self._downstream) == 0 and not self._block_input',
+                  'registered_as_an_asset': 'any(a is self for a in System._instance._assets)'})
+contract('Group.get_new_group_path', props=['C08'], args={'name': 'str', 'upstream': 'list[ref:PartFlowController]?'},
+         result='ref:GroupPath', invariants=False,
+         requires={'a_system_exists': _SYS.replace(' and a is not self', ''), 'the_group_exists': _GRP.format(g='self'),
+                   'parameters': 'upstream is None'},
+         ensures={'a_new_path_of_this_group': 'fresh(result) and typed(result, "GroupPath") and result._group is self',
+                  'registered_last_in_the_groups_path_list': _APPENDED.format(g='self', p='result')})
